@@ -1,1 +1,159 @@
-//! C11 — (harnesses not written yet)
+//! C11 — a crash at any point of writing never makes a reader see a wrong shape.
+use crate::env::*;
+use crate::model::*;
+use crate::refcodec::*;
+use shapefile::record::{ConcreteReadableShape, ReadableShape, WritableShape};
+use shapefile::*;
+
+fn same_point(p: &Point, q: &Point) -> bool {
+    beq(p.x, q.x) && beq(p.y, q.y)
+}
+
+/// Iterate at most `max` items; every `Some(Ok)` at position i must be written[i]; stop at
+/// the first error or end. Returns how many genuine shapes came back.
+fn check_prefix<T: std::io::Read + std::io::Seek>(rd: &mut ShapeReader<T>, written: &[Point], max: usize) -> usize {
+    let mut it = rd.iter_shapes_as::<Point>();
+    let mut got = 0usize;
+    let mut i = 0;
+    let mut stop = false;
+    while i < max && !stop {
+        let item = it.next();
+        match &item {
+            Some(Ok(p)) => {
+                assert!(i < written.len(), "reader returned more shapes than were written");
+                assert!(same_point(p, &written[i]), "reader returned a shape that was not written at this position");
+                got += 1;
+            }
+            _ => stop = true,
+        }
+        std::mem::forget(item);
+        i += 1;
+    }
+    got
+}
+
+fn with_index<const N: usize>(shp: &CrashFile<N>, shx: &CrashFile<N>, hl: i32, written: &[Point]) {
+    // Bytes 0..36 of the index header (file code, unused words, length, version, type) decide whether
+    // the index can be opened and how many entries it has. They are proved to hold the only values the
+    // writer ever puts there and then replaced by those constants, so that opening the index is
+    // straight-line for the solver; the box (36..100) and the entries stay as the crash left them.
+    let mut expect = [0u8; 100];
+    enc_header(&mut expect, 100, T_POINT, &[0.0; 8]);
+    let mut img = shx.persisted;
+    let mut i = 0;
+    while i < 36 {
+        if i < 24 || i >= 28 {
+            assert!(shx.persisted[i] == expect[i], "index header bytes outside the length field changed between the two header writes");
+            img[i] = expect[i];
+        }
+        i += 1;
+    }
+    put_i32_be(&mut img, 24, hl);
+    let mut xsrc = MemSource::with_len(&img, shx.plen);
+    xsrc.sure = 100; // the caller only comes here with shx.plen >= 100
+    let mut rd = ShapeReader::with_shx(MemSource::with_len(&shp.persisted, shp.plen), xsrc);
+    match &mut rd {
+        Ok(rd) => {
+            let _ = check_prefix(rd, written, 3);
+        }
+        Err(_) => {}
+    }
+    std::mem::forget(rd);
+}
+
+/// Workload: write a, [finalize], write b, drop, through CrashFile destinations whose cuts
+/// (operation index, byte inside that operation) are symbolic and independent.
+pub fn crash<const N: usize>(mid_finalize: bool, with_shx: bool, max_ops: u32) {
+    let a = Point::new(any_f64(), any_f64());
+    let b = Point::new(any_f64(), any_f64());
+    let written = [a, b];
+    let cut_op: u32 = kani::any();
+    let cut_bytes: usize = kani::any();
+    kani::assume(cut_op <= max_ops && cut_bytes <= 20);
+    let xcut_op: u32 = kani::any();
+    let xcut_bytes: usize = kani::any();
+    kani::assume(xcut_op <= max_ops && xcut_bytes <= 20);
+    let mut shp = CrashFile::<N>::new(cut_op, cut_bytes);
+    let mut shx = CrashFile::<N>::new(xcut_op, xcut_bytes);
+    let mut flushes_after_mid = 0;
+    {
+        let mut w = if with_shx {
+            ShapeWriter::with_shx(&mut shp, &mut shx)
+        } else {
+            ShapeWriter::new(&mut shp)
+        };
+        let r = w.write_shape(&a);
+        std::mem::forget(r);
+        if mid_finalize {
+            let r = w.finalize();
+            std::mem::forget(r);
+        }
+        let r = w.write_shape(&b);
+        std::mem::forget(r);
+    }
+    assert!(shp.op < max_ops, "workload issues more operations than the cut range covers");
+    // how many finalizes completed on the .shp before the crash (each ends with one flush)
+    let completed = shp.flushed_before_cut;
+    let durable = if mid_finalize {
+        if completed >= 2 { 2 } else if completed == 1 { 1 } else { 0 }
+    } else if completed >= 1 {
+        2
+    } else {
+        0
+    };
+    // reader on the .shp alone
+    let mut rd = ShapeReader::new(MemSource::with_len(&shp.persisted, shp.plen));
+    match &mut rd {
+        Ok(rd) => {
+            let got = check_prefix(rd, &written, 3);
+            assert!(got >= durable, "shapes committed by a completed finalize are no longer readable from the .shp");
+        }
+        Err(_) => assert!(durable == 0, "a file with a completed finalize cannot be opened"),
+    }
+    std::mem::forget(rd);
+    if with_shx && shx.plen >= 100 {
+        // (Index files cut inside their first header write are refused at open: that is the
+        // truncation case of C13, not repeated here.)
+        // Case split on the index header's length field so that the number of index entries is a
+        // constant inside each case (a symbolic entry count makes the index loop and its Vec
+        // unbounded for the solver). The final `else` proves that a torn header write can only
+        // leave one of the two values the writer ever stores there.
+        let hl = get_i32_be(&shx.persisted, 24);
+        if hl == 50 {
+            with_index(&shp, &shx, 50, &written);
+        } else if hl == 58 {
+            with_index(&shp, &shx, 58, &written);
+        } else {
+            assert!(false, "torn .shx header length is neither the placeholder nor the final value");
+        }
+        kani::cover!(hl == 50 && shx.plen > 100, "placeholder index header on the medium, entries (partly) behind it");
+    }
+    let _ = flushes_after_mid;
+    kani::cover!(completed >= 1, "a finalize completed before the cut");
+    kani::cover!(completed == 0 && shp.plen > 100, "crash before any finalize completed, records partly on the medium");
+}
+
+// H: tier=quick; unwind=38; sym=2 Points; cut=(operation index 0..=70, byte 0..=20 inside it) on the .shp; workload=write a, write b, drop; reader=ShapeReader::new on the persisted image; asserts=every returned shape equals the one written at that position, never more than written, no panic; after a completed finalize both shapes come back
+#[kani::proof]
+#[kani::unwind(38)]
+fn c11_q_shp_only_no_mid_finalize() {
+    crash::<192>(false, false, 70);
+}
+// H: tier=quick; unwind=38; sym=2 Points; cut on the .shp (symbolic op, byte); workload=write a, finalize, write b, drop; asserts=as above + shape a stays readable once the first finalize completed, whatever is cut later (incl. inside the header rewrite)
+#[kani::proof]
+#[kani::unwind(38)]
+fn c11_q_shp_only_mid_finalize() {
+    crash::<192>(true, false, 90);
+}
+// H: tier=quick; unwind=38; timeout=1500; sym=2 Points; cuts=independent (op, byte) on .shp and on .shx (index cut after its first 100 bytes; earlier cuts = C13 truncation); workload=write a, write b, drop; readers=ShapeReader::new and ::with_shx on the persisted images; asserts=only genuine shapes at their positions, no panic; torn index header length is one of the two values the writer stores
+#[kani::proof]
+#[kani::unwind(38)]
+fn c11_q_shp_shx_no_mid_finalize() {
+    crash::<192>(false, true, 70);
+}
+// H: tier=thorough; unwind=38; sym=2 Points; cuts=independent on .shp and .shx; workload=write a, finalize, write b, drop; asserts=as above
+#[kani::proof]
+#[kani::unwind(38)]
+fn c11_t_shp_shx_mid_finalize() {
+    crash::<192>(true, true, 90);
+}
